@@ -58,6 +58,11 @@ def call_site(ctx) -> None:
     # re-ordering and cast arguments
     data_defs = [s for s in core.walk_local(fn.node) if isinstance(s, ast.Assign) and core.src(s.targets[0]) == 'data']
     okd = len(data_defs) == 1 and core.src(data_defs[0].value) in (f'entry.data.take_columns({indices}) if {indices} else entry.data', f'entry.data.take_columns({indices}) if {indices} is not None else entry.data')
+    if not okd and len(data_defs) == 2:
+        # statement form: data = entry.data ; if indices: data = data.take_columns(indices)
+        first, second = sorted(data_defs, key=lambda s: s.lineno)
+        gs = [core.src(t) for t, pol in cfg.guards(second, fn.node, siblings=False) if pol]
+        okd = core.src(first.value) == 'entry.data' and core.src(second.value) == f'data.take_columns({indices})' and any(g in (indices, f'{indices} is not None') for g in gs)
     ctx.check(okd, 'C15.order', fn, 'the entry data is re-ordered into query order with take_columns(indices) (identity when indices is None)', data_defs[0] if data_defs else fn.node, key='reorder')
     casts = [c for c in core.calls_in(fn.node) if isinstance(c.func, ast.Attribute) and c.func.attr == '_cast']
     ctx.check(len(casts) == 1 and [core.src(a) for a in casts[0].args] == ['statement.schema', 'entry.schema', 'data'], 'C15.order', fn, '_cast(expected=query schema, actual=entry schema, data=re-ordered data)', casts[0] if casts else fn.node, key='cast:args')
@@ -138,9 +143,12 @@ def cast(ctx) -> None:
         ctx.sample({'zip': core.src(z), 'order_spaces': ztags})
         ctx.check(len(set(ztags)) == 1 and None not in ztags, 'C15.order', fn, f'positional pairing `{core.src(z)}` stays within one order space {ztags} (the entry schema is in entry order, the data was re-ordered into query order)', z)
     text = core.src(fn.node)
-    ctx.check('actual[e.name]' in text, 'C15.order', fn, 'the actual entry field is looked up by name', fn.node, key='cast:by-name')
-    ctx.check('e.kind.match(actual[e.name].kind)' in text and 'e.kind.cast(v)' in text, 'C15.order', fn, 'values are cast with the expected kind unless the entry kind already matches', fn.node, key='cast:kind')
-    ctx.check('e.name:' in text, 'C15.order', fn, 'the result columns carry the query names', fn.node, key='cast:names')
+    dc = next((n for n in ast.walk(fn.node) if isinstance(n, ast.DictComp) and len(n.generators) == 1 and isinstance(n.generators[0].target, ast.Tuple)), None)
+    e = core.src(dc.generators[0].target.elts[0]) if dc is not None else 'e'
+    text = text.replace(' ', '')
+    ctx.check(f'actual[{e}.name]' in text, 'C15.order', fn, 'the actual entry field is looked up by name', fn.node, key='cast:by-name')
+    ctx.check(f'{e}.kind.match(actual[{e}.name].kind)' in text and f'{e}.kind.cast(' in text, 'C15.order', fn, 'values are cast with the expected kind unless the entry kind already matches', fn.node, key='cast:kind')
+    ctx.check(dc is not None and core.src(dc.key) == f'{e}.name', 'C15.order', fn, 'the result columns carry the query names', fn.node, key='cast:names')
     first = fn.body[0] if not isinstance(fn.body[0], ast.Expr) else fn.body[1]
     ctx.check(isinstance(first, ast.If) and core.src(first.test) in ('actual == expected', 'expected == actual'), 'C15.order', fn, 'data is returned unchanged only for equal schemas', first, key='cast:identity')
 
